@@ -207,6 +207,12 @@ class ValueStringImpl(FnContract):
                 ('null', z3.Implies(v == VNone, r == VStr(z3.StringVal('null'))))]
 
 
+import os as _os
+with open(_os.path.join(_os.path.dirname(_os.path.dirname(_os.path.abspath(__file__))), 'native', 'witness', 'number_text_witness.py'),
+          encoding='utf-8') as _fh:
+    NUMBER_TEXT_WITNESS = _fh.read()
+ValueStringImpl.native_witness = {'C13.floats-print-through-repr-and-the-zero-fraction-cleanup': NUMBER_TEXT_WITNESS,
+                                  'C13.integers-print-through-str': NUMBER_TEXT_WITNESS}
 VALUE_STRING_IMPL = ValueStringImpl()
 VALUE_STRING_IMPL.callee_contracts = {'value.value_json': BASE['value.value_json']}
 
